@@ -1,6 +1,6 @@
-(* C10 / C14 proofs: a guarded slot always answers with what a fresh load of the key asked for gives, after ANY history
-   of checks, including failed loads; an unguarded slot does so as long as no load fails, and the refutation shows what
-   happens otherwise. *)
+(* C10 / C14 proofs: a slot always answers with what a fresh load of the key asked for gives, after ANY history of
+   checks, including failed loads, with or without the emptiness guard; the variant that keeps the record of the
+   previous load after a failure does not (refutation). *)
 From MC Require Import Lib.Base Model.Caches.
 Local Open Scope N_scope.
 
@@ -9,49 +9,34 @@ Section Proofs.
   Variable load : str -> option V.
 
   Lemma empty_inv : slot_inv load empty_slot.
-  Proof. intros k v H. discriminate. Qed.
+  Proof. reflexivity. Qed.
 
   Lemma check_inv : forall guard s k, slot_inv load s -> slot_inv load (fst (fst (check load guard s k))).
   Proof.
     intros guard s k Hi. unfold check. destruct (needs_reload guard s k); [|exact Hi].
     destruct (load k) as [v|] eqn:L; cbn [fst].
-    - intros k' v' Hk Hv. cbn in Hk, Hv. inversion Hk; inversion Hv; subst. exact L.
-    - intros k' v' Hk Hv. cbn in Hv. discriminate.
+    - unfold slot_inv. cbn [s_key s_val]. exists v. split; [reflexivity | exact L].
+    - reflexivity.
   Qed.
 
-  (* guarded: the answer is the fresh load, whatever happened before *)
-  Theorem L_guarded_answer_is_fresh : forall s k, slot_inv load s -> snd (fst (check load true s k)) = load k.
+  (* the answer is the fresh load, whatever happened before *)
+  Theorem L_answer_is_fresh : forall guard s k, slot_inv load s -> snd (fst (check load guard s k)) = load k.
   Proof.
-    intros s k Hi. unfold check, needs_reload. destruct (s_key s) as [k'|] eqn:K.
-    - destruct (str_eqb k k') eqn:E.
-      + apply str_eqb_eq in E. subst k'. destruct (s_val s) as [v|] eqn:Vv; cbn [negb orb andb fst snd].
-        * symmetry. exact (Hi _ _ K Vv).
-        * destruct (load k); reflexivity.
+    intros guard s k Hi. unfold check, needs_reload. unfold slot_inv in Hi. destruct (s_key s) as [k'|] eqn:K.
+    - destruct Hi as [v [Hv Hl]]. rewrite Hv. destruct (str_eqb k k') eqn:E.
+      + apply str_eqb_eq in E. subst k'. rewrite Bool.andb_false_r. cbn [negb orb fst snd]. symmetry. exact Hl.
       + cbn [negb orb]. destruct (load k); reflexivity.
     - destruct (load k); reflexivity.
   Qed.
 
-  (* unguarded: the same, provided the recorded value is not empty (no load has failed since the key was recorded) *)
-  Theorem L_unguarded_answer_is_fresh : forall s k, slot_inv load s -> (s_key s <> None -> s_val s <> None) ->
-    snd (fst (check load false s k)) = load k.
+  (* every answer of a whole history of checks, starting from anywhere consistent *)
+  Theorem L_history_answers_are_fresh : forall guard ks s, slot_inv load s ->
+    map fst (snd (run load guard s ks)) = map load ks.
   Proof.
-    intros s k Hi Hne. unfold check, needs_reload. destruct (s_key s) as [k'|] eqn:K.
-    - destruct (str_eqb k k') eqn:E.
-      + apply str_eqb_eq in E. subst k'. destruct (s_val s) as [v|] eqn:Vv; cbn [negb orb andb fst snd].
-        * symmetry. exact (Hi _ _ K Vv).
-        * exfalso. apply Hne; [discriminate | reflexivity].
-      + cbn [negb orb]. destruct (load k); reflexivity.
-    - destruct (load k); reflexivity.
-  Qed.
-
-  (* every answer of a whole history of checks on a guarded slot, starting from anywhere consistent *)
-  Theorem L_history_answers_are_fresh : forall ks s, slot_inv load s ->
-    map fst (snd (run load true s ks)) = map load ks.
-  Proof.
-    induction ks as [|k r IH]; intros s Hi; [reflexivity|]. cbn [run].
-    pose proof (L_guarded_answer_is_fresh s k Hi) as A. pose proof (check_inv true s k Hi) as I1.
-    destruct (check load true s k) as [[s1 v] b]. cbn [fst snd] in A, I1. specialize (IH s1 I1).
-    destruct (run load true s1 r) as [s2 out]. cbn [snd map fst] in *. rewrite A, IH. reflexivity.
+    intros guard. induction ks as [|k r IH]; intros s Hi; [reflexivity|]. cbn [run].
+    pose proof (L_answer_is_fresh guard s k Hi) as A. pose proof (check_inv guard s k Hi) as I1.
+    destruct (check load guard s k) as [[s1 v] b]. cbn [fst snd] in A, I1. specialize (IH s1 I1).
+    destruct (run load guard s1 r) as [s2 out]. cbn [snd map fst] in *. rewrite A, IH. reflexivity.
   Qed.
 
   (* a check never reloads for the key it has a value for: asking twice costs one load *)
@@ -60,14 +45,25 @@ Section Proofs.
   Proof.
     intros guard s k v _. unfold check, needs_reload. cbn [s_key s_val]. rewrite str_eqb_refl. destruct guard; reflexivity.
   Qed.
+
+  (* a failed load is retried: after an answer None the next check loads again, whatever it is asked for *)
+  Theorem L_failure_is_retried : forall guard s k, slot_inv load s -> snd (fst (check load guard s k)) = None ->
+    forall k', snd (check load guard (fst (fst (check load guard s k))) k') = true.
+  Proof.
+    intros guard s k Hi Hn k'. unfold check in *. destruct (needs_reload guard s k) eqn:R.
+    - destruct (load k) as [v|]; [discriminate|]. cbn [fst snd]. unfold needs_reload. cbn [s_key empty_slot].
+      destruct (load k'); reflexivity.
+    - cbn [fst snd] in *. unfold slot_inv in Hi. unfold needs_reload in *. destruct (s_key s) as [k0|]; [|discriminate].
+      destruct Hi as [v [Hv _]]. rewrite Hv in Hn. discriminate.
+  Qed.
 End Proofs.
 
-(* the unguarded slot after a failed load: going back to the key it has recorded gives the EMPTY value, not the fresh
-   load (the short Unicode tables under CheckRuleFiles other than All) *)
+(* the variant that keeps the record after a failed load, without the emptiness guard: going back to the key on record
+   gives the EMPTY value, not the fresh load *)
 Definition demo_load (k : str) : option N := match k with [1] => Some 1 | [3] => Some 3 | _ => None end.
-Lemma L_unguarded_stale_after_failure :
-  let '(s1, _, _) := check demo_load false empty_slot [1] in       (* load file 1: fine *)
-  let '(s2, v2, _) := check demo_load false s1 [2] in              (* switch to file 2: unreadable *)
-  let '(_, v3, _) := check demo_load false s2 [1] in               (* back to file 1 *)
+Lemma L_kept_record_is_stale :
+  let '(s1, _, _) := check_keep demo_load false empty_slot [1] in       (* load file 1: fine *)
+  let '(s2, v2, _) := check_keep demo_load false s1 [2] in              (* switch to file 2: unreadable *)
+  let '(_, v3, _) := check_keep demo_load false s2 [1] in               (* back to file 1 *)
   v2 = None /\ v3 = None /\ demo_load [1] = Some 1.
 Proof. vm_compute. auto. Qed.
